@@ -2,11 +2,12 @@
 from __future__ import annotations
 
 import ast
+import re
+from fractions import Fraction
 
-from ..loops import dotted
 from ..nf import NF, Scope, Poly, parse_expr
 from ..sem import same_ingredients, OrderModel, Unknown
-from ..repo import Repo, loc, short, AnalysisError, positional_params, param_names
+from ..repo import Repo, loc, AnalysisError, param_names
 from ..shapes import ShapeEngine
 
 EXPLANATION = (
@@ -16,7 +17,11 @@ EXPLANATION = (
     "x / max(mean|x| over the last axis (kept), eps); schedule: length total_timesteps, constant tail `end`, linspace(start, end, n) prefix "
     "with n = int(total*fraction); masked loss under its documented shapes (shape engine). Two-hot encoding: the weight algebra (lower "
     "weight 1-w, upper weight w, w = (x-lower)/(upper-lower), upper index = lower index + 1 clipped) is checked - rows then sum to one and "
-    "decode to x by construction; the masked-argmin lower-edge search over float differences is NOT decided."
+    "decode to x by construction; the masked-argmin lower-edge search over float differences is NOT decided. Parameters are taken by "
+    "position of the recorded signature (their names are free). A formula that is not literally a documented spelling is read piece by piece "
+    "(factor, reduction, axis, keepdims, reduced quantity): a violation needs a piece with positive evidence of a difference (another constant "
+    "axis, another reduction, the documented ingredients combined differently, a constant index offset other than one, independent left / right "
+    "edge searches); an unread piece or an unknown building block makes the clause undecided."
 )
 TRUSTED = ["jnp.minimum / log_softmax / linspace semantics", "min(e, delta) equals e or delta (case split is exhaustive)"]
 RULES = {
@@ -29,24 +34,153 @@ RULES = {
 }
 
 
-def _env(fn):
-    return {p: Poly.atom(p, {p}, {p}) for p in param_names(fn)}
+def _env(repo, nf, fn):
+    """Parameters as atoms.  A parameter that the specialise pass reads at its constant default (an option added - or renamed - after the
+    reference signatures were recorded; its occurrences in the body are already replaced) is bound to that constant, so that the documented
+    formula is stated for the same reading of the function."""
+    env = {p: Poly.atom(p, {p}, {p}) for p in param_names(fn)}
+    for qq, p, d in getattr(repo, "specialised", None) or []:
+        try:
+            same = repo.lookup(qq)[1] is fn
+        except Exception:
+            same = False
+        if same and p in env:
+            v = nf.poly(parse_expr(d), Scope(None, fn._module), None)
+            if v.is_const():
+                env[p] = v
+    return env
+
+
+_TMP = re.compile(r"__i\d+\b")
+
+
+def _opaque(*ps) -> bool:
+    """The value contains something the engine did not read: a merge of definitions, an opaque construct, an expander temporary."""
+    return any("φ(" in c or "⟦" in c or _TMP.search(c) for c in (p.canon() for p in ps if p is not None))
+
+
+def _roles(fn, q, k):
+    """The first k parameters of the public signature, by position (their names are free)."""
+    ps = param_names(fn)
+    if len(ps) < k or fn.args.vararg is not None:
+        raise AnalysisError(f"{q}: signature changed, {k} leading parameters expected (anchor vanished)")
+    return ps[:k]
+
+
+def _ret(nf, q, env):
+    try:
+        return nf.return_poly(q, env)
+    except ValueError as e:
+        raise AnalysisError(f"{q}: {e} (unrecognised form)")
+
+
+def _lib(nf, op, *args, **kws):
+    """Normal form of a library call, built without name resolution (the analysed module need not import the library under a given name)."""
+    return nf._libcall(op, list(args), dict(kws), None)
+
+
+def _sub(p: Poly, idx: str) -> Poly:
+    return Poly.atom(f"{p.canon()}[{idx}]", p.deps, p.gdeps)
+
+
+def _c(v):
+    return Poly.const(v)
+
+
+def _read_reduction(nf, p: Poly):
+    """p == c * sum|mean(inner, axis, keepdims)  ->  (c, 'sum'|'mean', inner, axis Poly | None, keepdims Poly | None); anything else -> None."""
+    if p is None or len(p.terms) != 1:
+        return None
+    (mono, c), = p.terms.items()
+    if len(mono) != 1 or mono[0][1] != 1:
+        return None
+    m = nf.meta.get(mono[0][0])
+    if not m:
+        return None
+    fn_ = m.get("fn", "").split(".")[-1]
+    args, kws = list(m.get("args", [])), dict(m.get("kws", {}))
+    if fn_ not in ("sum", "mean") or not 1 <= len(args) <= 2 or (len(args) == 2 and "axis" in kws):
+        return None
+    axis = args[1] if len(args) == 2 else kws.pop("axis", None)
+    keep = kws.pop("keepdims", None)
+    if kws:
+        return None
+    if axis is not None and axis.canon() == "None":
+        axis = None
+    return c, fn_, args[0], axis, keep
+
+
+def _last_axis(axis, rank):
+    """True: the reduction runs over the last axis of an array of that rank (None: any rank); False: over something else (a constant that
+    names another axis, or no axis at all = over everything); None: not a constant."""
+    if axis is None:
+        return rank == 1
+    v = axis.const_value() if axis.is_const() else None
+    if v is None:
+        return None
+    return v == -1 or (rank is not None and v == rank - 1)
+
+
+def _flag(v, true_values, false_values):
+    """Keyword flag (keepdims): None = absent."""
+    key = None if v is None else (v.const_value() if v.is_const() else "?")
+    return True if key in true_values else False if key in false_values else None
+
+
+def _piece(got: Poly, wants, extra=()):
+    """True: the value is one of the documented spellings; False: it is built from the documented ingredients but differs; None: unread."""
+    if any(got == w for w in wants):
+        return True
+    if _opaque(got) or not same_ingredients(got, wants[0], extra):
+        return None
+    return False
+
+
+def _decide(ck, rule, q, key, got: Poly, wants, pieces, why, where, extra=()):
+    """Equal to a documented spelling -> holds.  Otherwise the formula is read piece by piece (`pieces(got)` -> {piece: True | False | None}
+    or None when the outer shape is not the documented one): all pieces right -> holds; a piece with positive evidence of a difference and
+    no unread piece -> violation; an unread piece -> undecided.  Without a piece-wise reading a difference is a violation only when the value
+    is built from the documented ingredients (then the two normal forms denote different functions)."""
+    shown = got.canon()[:170]
+    if any(got == w for w in wants):
+        ck.ob(rule, q, key, True, shown, "", where)
+        return True
+    if _opaque(got):
+        raise AnalysisError(f"{q}: {key} is `{shown[:110]}` (unrecognised form)")
+    res = pieces(got) if pieces is not None else None
+    if res is None:
+        if not same_ingredients(got, wants[0], extra):
+            raise AnalysisError(f"{q}: {key} is `{shown[:110]}`: not written with the documented building blocks (unrecognised form)")
+        ck.ob(rule, q, key, False, shown, f"{why}; differs from `{wants[0].canon()[:120]}` by {(got - wants[0]).canon()[:120]}", where)
+        return False
+    unread = sorted(k for k, v in res.items() if v is None)
+    bad = sorted(k for k, v in res.items() if v is False)
+    if unread:
+        raise AnalysisError(f"{q}: {key}: {', '.join(unread)} of `{shown[:110]}` not read (unrecognised form)")
+    ck.ob(rule, q, key, not bad, shown, "" if not bad else f"{why}; wrong: {', '.join(bad)} (documented: `{wants[0].canon()[:120]}`)", where)
+    return not bad
 
 
 def run(ck, repo: Repo, tier: str):
     nf = NF(repo, inline_depth=2)
-    # ---- R1 Huber -----------------------------------------------------------------------------------------
+    # independent rule groups: an unread form in one of them does not hide a definite finding of another
+    for grp in (_r1_huber, _r2_cross_entropy, _r2_decoding, _r6_two_hot, _r3_avg_l1, _r3_eps_default, _r4_schedule, _r5_masked, _r5_broadcast):
+        ck.guard(grp, ck, repo, nf)
+
+
+# ---- R1 Huber ---------------------------------------------------------------------------------------------
+def _r1_huber(ck, repo, nf):
     q = "rl_blox.blox.losses.huber_loss"
     fn = repo.func(q)
-    env = _env(fn)
-    ck.need(param_names(fn)[:2] == ["abs_errors", "delta"], f"{q}: signature changed")
-    got = nf.return_poly(q, env)
+    env = _env(repo, nf, fn)
+    PE, PD = _roles(fn, q, 2)          # |e|, delta: by position
+    got = _ret(nf, q, env)
     where = loc(fn._module, fn)
-    e, d = env["abs_errors"], env["delta"]
+    e, d = env[PE], env[PD]
     # piecewise identity in the three order worlds of (|e|, delta); delta > 0 and |e| >= 0 are documented preconditions
     model = OrderModel()
     model.cluster([Poly.const(0), e, d], constraint=lambda r: r[0] < r[2] and r[0] <= r[1])
-    model.positive("delta")
+    model.positive(PD)
     seen = set()
     for w in model.worlds():
         sg = model.sign(w, e - d)
@@ -56,79 +190,268 @@ def run(ck, repo: Repo, tier: str):
         val = model.value(w, nf, got)
         want = model.resolve(w, e.pow(2).scale("1/2") if sg <= 0 else d * (e - d.scale("1/2")))
         ok = val == want
-        if not ok and not (val.atoms() <= {"abs_errors", "delta"}):
+        if not ok and not (val.atoms() <= {PE, PD}):
             raise AnalysisError(f"{q}: value `{val.canon()[:100]}` in the world {label} (unrecognised form)")
         seen.add(label)
+        # a polynomial in |e| and delta alone that is not the documented one: a different function
         ck.ob("R1-huber", q, f"branch:{label}", ok, f"{label}  =>  {val.canon()}", "" if ok else f"must be {'0.5*e^2' if sg <= 0 else 'delta*(e - 0.5*delta)'}, got a difference of {(val - want).canon()}", where)
-    ck.ob("R1-huber", q, "worlds", len(seen) == 3, f"{sorted(seen)}", "" if len(seen) == 3 else "order model degenerate", where)
+    if len(seen) != 3:
+        raise AnalysisError(f"{q}: order model degenerate ({sorted(seen)})")
+    ck.ob("R1-huber", q, "worlds", True, f"{sorted(seen)}", "", where)
 
-    # ---- R2 cross-entropy / decoding ---------------------------------------------------------------------------
-    P = "rl_blox.blox.preprocessing."
-    nf2 = NF(repo, inline_depth=2, no_inline={P + "two_hot_encoding"})
+
+# ---- R2 cross-entropy / decoding ---------------------------------------------------------------------------
+P = "rl_blox.blox.preprocessing."
+
+
+def _r2_cross_entropy(ck, repo, nf):
+    enc = repo.func(P + "two_hot_encoding")
+    enc_q = repo.canonical(f"{enc._module.name}.{enc.name}", enc)
+    nf2 = NF(repo, inline_depth=2, no_inline={P + "two_hot_encoding", enc_q, f"{enc._module.name}.{enc.name}"})
     q = P + "two_hot_cross_entropy_loss"
     fn = repo.func(q)
-    env = _env(fn)
-    got = nf2.return_poly(q, env)
-    want = nf2.poly(parse_expr("-jnp.sum(two_hot_encoding(bins, target) * jax.nn.log_softmax(logits, axis=-1), axis=-1)"), Scope(None, fn._module, env, q), None)
-    ck.ob("R2-cross-entropy", q, "formula", got == want, f"{got.canon()[:150]}", "" if got == want else f"differs from -sum(two_hot(target)*log_softmax(logits)) by {(got - want).canon()[:120]}", loc(fn._module, fn))
+    env = _env(repo, nf, fn)
+    B, L, T = (env[x] for x in _roles(fn, q, 3))      # bins, logits, target: by position
+    got = _ret(nf2, q, env)
+    code = nf2.poly(ast.Call(func=ast.Name(id=enc.name, ctx=ast.Load()), args=[ast.Name(id=x, ctx=ast.Load()) for x in _roles(fn, q, 3)[::2]], keywords=[]), Scope(None, enc._module, env, q), None)
+    # log-probabilities over the bin axis of (n_samples, n_bins) logits: axis -1 (the default of log_softmax) == axis 1
+    lsm = [_lib(nf2, "log_softmax", L, axis=_c(-1)), _lib(nf2, "log_softmax", L), _lib(nf2, "log_softmax", L, _c(-1)), _lib(nf2, "log_softmax", L, axis=_c(1)), _lib(nf2, "log_softmax", L, _c(1))]
+    inner = [code * x for x in lsm]
+    wants = [-_lib(nf2, "sum", inner[0], axis=_c(-1))]
+
+    def pieces(g):
+        r = _read_reduction(nf2, g)
+        if r is None:
+            return None
+        c, red, inn, axis, keep = r
+        return {"sign / factor": c == -1, "reduction": red == "sum", "axis": _last_axis(axis, 2), "keepdims": _flag(keep, (None, 0), ()),
+                "summand": _piece(inn, inner, ("softmax",))}
+    _decide(ck, "R2-cross-entropy", q, "formula", got, wants, pieces, "must be -sum(two_hot(target) * log_softmax(logits), last axis)", loc(fn._module, fn), ("softmax",))
+
+
+def _r2_decoding(ck, repo, nf):
     q = P + "two_hot_decoding"
     fn = repo.func(q)
-    env = _env(fn)
-    got = nf.return_poly(q, env)
-    want = nf.poly(parse_expr("jnp.sum(two_hot_encoded * bins, axis=-1)"), Scope(None, fn._module, env, q), None)
-    ck.ob("R2-cross-entropy", q, "decoding", got == want, f"{got.canon()}", "" if got == want else "decoding must be the bin-weighted sum over the last axis", loc(fn._module, fn))
+    env = _env(repo, nf, fn)
+    B, E = (env[x] for x in _roles(fn, q, 2))         # bins, encoded rows: by position
+    got = _ret(nf, q, env)
+    # (n_samples, n_bins) rows times (n_bins,) edges: the edges broadcast along the last axis with or without an explicit leading axis
+    inner = [E * B] + [E * _sub(B, i) for i in ("None", "jax.numpy.newaxis", "numpy.newaxis", "None, :", "jax.numpy.newaxis, :", "numpy.newaxis, :")]
+    wants = [_lib(nf, "sum", inner[0], axis=_c(-1))]
+    # a matrix-vector product is the same contraction over the last axis
+    wants += [Poly.atom(f"matmult({E.canon()}, {B.canon()})"), _lib(nf, "dot", E, B), _lib(nf, "matmul", E, B)]
 
-    # ---- R6 two-hot weights ----------------------------------------------------------------------------------------
+    def pieces(g):
+        r = _read_reduction(nf, g)
+        if r is None:
+            return None
+        c, red, inn, axis, keep = r
+        return {"factor": c == 1, "reduction": red == "sum", "axis": _last_axis(axis, 2), "keepdims": _flag(keep, (None, 0), ()), "summand": _piece(inn, inner)}
+    _decide(ck, "R2-cross-entropy", q, "decoding", got, wants, pieces, "decoding must be the bin-weighted sum over the last axis", loc(fn._module, fn))
+
+
+# ---- R6 two-hot weights ----------------------------------------------------------------------------------------
+def _r6_two_hot(ck, repo, nf):
     q = P + "two_hot_encoding"
     fn = repo.func(q)
     mi = fn._module
     cfg = nf.cfg_of(fn)
-    env = _env(fn)
+    env = _env(repo, nf, fn)
+    PB, PX = _roles(fn, q, 2)          # bins, x: by position
+    BN, X = env[PB], env[PX]
     sc = Scope(cfg, mi, env, q)
-    sets = []
+    spec = Scope(None, mi, env, q)
+    got = _ret(nf, q, env)
+    # the functional updates the returned array went through ...
+    chain, cur = [], got
+    while cur.single_atom() is not None and "at" in nf.meta.get(cur.single_atom(), {}):
+        chain.append(cur.single_atom())
+        cur = nf.meta[cur.single_atom()]["at"]["base"]
+    # ... and the same updates as written in this function (their index expressions are read there)
+    writes = {}
     for n in cfg.nodes:
-        if n.kind == "stmt" and isinstance(n.ast, ast.Assign) and isinstance(n.ast.value, ast.Call) and isinstance(n.ast.value.func, ast.Attribute) and n.ast.value.func.attr == "set":
-            c = n.ast.value
-            idx = c.func.value.slice
-            col = nf.poly(idx.elts[1], sc, n.id) if isinstance(idx, ast.Tuple) and len(idx.elts) == 2 else None
-            row = nf.poly(idx.elts[0], sc, n.id).canon() if isinstance(idx, ast.Tuple) else None
-            sets.append((n, row, col, nf.poly(c.args[0], sc, n.id)))
-    ck.need(len(sets) == 2, f"{q}: expected two .at[rows, idx].set(weight) writes")
-    (n1, r1, c1, v1), (n2, r2, c2, v2) = sets
-    ok = (v1 + v2) == Poly.const(1)
-    ck.ob("R6-two-hot-weights", q, "weights-sum-to-one", ok, f"w_lo + w_up = {(v1 + v2).canon()[:80]}", "" if ok else "the two written weights must sum to one", loc(mi, n1.ast))
-    ok = r1 == r2 == "arange(x.shape[0])"
-    ck.ob("R6-two-hot-weights", q, "one-row-per-sample", ok, f"rows {r1} / {r2}", "" if ok else "each sample writes into its own row", loc(mi, n1.ast))
-    lo = c1.canon() if c1 is not None else ""
-    up = c2.canon() if c2 is not None else ""
-    ok = up in (f"clip(1 + {lo}, 0, -1 + bins.shape[0])", f"clip(0, 1 + {lo}, -1 + bins.shape[0])")
-    ck.ob("R6-two-hot-weights", q, "adjacent-indices", ok, f"lower idx = {lo[:60]}, upper idx = {up[:80]}", "" if ok else "the upper index must be lower+1 clipped to the last bin (adjacent non-zero entries)", loc(mi, n2.ast))
-    w = v2
-    want = nf.poly(parse_expr("(x - bins[LO]) / (bins[UP] - bins[LO])"), Scope(None, mi, {**env, "LO": c1, "UP": c2}, q), None) if c1 is not None and c2 is not None else None
-    ok = want is not None and w == want
-    ck.ob("R6-two-hot-weights", q, "interpolation-weight", ok, f"w = {w.canon()[:120]}", "" if ok else "w must be (x - lower edge) / (upper edge - lower edge): then (1-w)*lower + w*upper decodes to x", loc(mi, n2.ast))
+        if n.kind != "stmt" or n.ast is None:
+            continue
+        for c in ast.walk(n.ast):
+            if isinstance(c, ast.Call) and isinstance(c.func, ast.Attribute) and isinstance(c.func.value, ast.Subscript) and isinstance(c.func.value.value, ast.Attribute) and c.func.value.value.attr == "at":
+                a = nf.poly(c, sc, n.id).single_atom()
+                m = nf.meta.get(a or "", {})
+                if a is None or "at" not in m or a in writes:
+                    continue
+                idx = c.func.value.slice
+                if isinstance(idx, ast.Tuple) and len(idx.elts) == 2:
+                    row, col = (nf.poly(x, sc, n.id) for x in idx.elts)
+                else:
+                    pi = nf.poly(idx, sc, n.id)
+                    row, col = pi.elems if pi.elems is not None and len(pi.elems) == 2 else (None, None)
+                writes[a] = (n, row, col, m["args"][0] if len(m.get("args", [])) == 1 and not m.get("kws") else None, m["at"]["op"])
+    if len(chain) != 2 or set(chain) != set(writes) or any(r is None or v is None or op != "set" for (_n, r, _c2, v, op) in writes.values()):
+        raise AnalysisError(f"{q}: expected the result to be built by two `.at[rows, idx].set(weight)` writes of this function, found {len(chain)} on the result / {len(writes)} written (unrecognised form)")
+    (na, ra, ca, va, _o1), (nb, rb, cb, vb, _o2) = (writes[a] for a in reversed(chain))     # in the order they are applied
+    if _opaque(ra, rb, ca, cb, va, vb):
+        raise AnalysisError(f"{q}: an index or weight of the two writes is not resolved: `{ca.canon()[:60]}` / `{cb.canon()[:60]}` / `{va.canon()[:60]}` / `{vb.canon()[:60]}` (unrecognised form)")
+    lasts = [nf.poly(parse_expr(t.format(b=PB)), spec, None) for t in ("{b}.shape[0] - 1", "len({b}) - 1", "{b}.size - 1", "{b}.shape[-1] - 1")]
+
+    def strip(cidx):
+        """clip(i, 0, last) / minimum(i, last) -> (i, True); another bound -> (index as written, None: bound not read); unclipped -> (index, False)"""
+        m = nf.meta.get(cidx.single_atom() or "", {})
+        f_, args = m.get("fn", "").split(".")[-1], m.get("args", [])
+        if f_ == "clip" and len(args) == 3 and not m.get("kws"):
+            raw = [x for x in args[:2] if not (x.is_const() and x.const_value() == 0)]
+            if len(raw) == 1 and args[2] in lasts:
+                return raw[0], True
+            return cidx, None
+        if f_ == "minimum" and len(args) == 2 and not m.get("kws"):
+            raw = [x for x in args if x not in lasts]
+            return (raw[0], True) if len(raw) == 1 else (cidx, None)
+        return cidx, False
+    (sa, ka), (sb, kb) = strip(ca), strip(cb)
+    # adjacency: the two column indices differ by the constant one (an index may be clipped to the last bin; for values inside the bin
+    # range the clip never binds)
+    k, as_written = None, False
+    for x, y in ((ca, cb), (sa, sb), (ca, sb), (sa, cb)):
+        dd = y - x
+        if dd.is_const():
+            k, as_written = dd.const_value(), x is ca and y is cb
+            break
+    where2 = loc(mi, nb.ast)
+    shown = f"column indices {ca.canon()[:70]} / {cb.canon()[:70]}"
+    if k is None:
+        def search(p):
+            """index == searchsorted(bins, x, side) + const -> side"""
+            ats = [a for a in p.atoms() if nf.meta.get(a, {}).get("fn", "").split(".")[-1] == "searchsorted"]
+            if len(ats) != 1 or not (p - Poly.atom(ats[0])).is_const():
+                return None
+            m = nf.meta[ats[0]]
+            if len(m["args"]) < 2 or m["args"][0] != BN or m["args"][1] != X:
+                return None
+            side = m["args"][2] if len(m["args"]) > 2 else m["kws"].get("side")
+            return "'left'" if side is None else side.canon()
+        sides = (search(sa), search(sb))
+        if None not in sides and sides[0] != sides[1] and set(sides) <= {"'left'", "'right'"}:
+            # known library semantics: for x on an exact bin edge the right-sided search is one larger than the left-sided one, elsewhere they agree
+            ck.ob("R6-two-hot-weights", q, "adjacent-indices", False, shown, "the two indices come from independent left / right searches: their distance is one smaller for x exactly on a bin edge than elsewhere, so "
+                  "they cannot be adjacent for every x (adjacent off the edges means the same column on an edge: the second write overwrites the first)", where2, witness=[f"x == {PB}[j]: searchsorted(side='right') == searchsorted(side='left') + 1"])
+            return
+        raise AnalysisError(f"{q}: the two column indices `{ca.canon()[:70]}` / `{cb.canon()[:70]}` are not related by a constant offset (unrecognised form)")
+    if None in (ka, kb) and not as_written:
+        raise AnalysisError(f"{q}: clipping bound of a column index `{ca.canon()[:70]}` / `{cb.canon()[:70]}` not read (unrecognised form)")
+    if k < 0:
+        (na, ra, ca, va), (nb, rb, cb, vb), k = (nb, rb, cb, vb), (na, ra, ca, va), -k
+    # from here: a = lower edge, b = upper edge
+    ok = k == 1
+    ck.ob("R6-two-hot-weights", q, "adjacent-indices", ok, f"lower idx = {ca.canon()[:60]}, upper idx = {cb.canon()[:80]}", "" if ok else f"the upper index must be lower+1 (adjacent non-zero entries), the two indices differ by {k}", where2)
+    rows = [nf.poly(parse_expr(t.format(x=PX)), spec, None) for t in ("{x}.shape[0]", "len({x})", "{x}.size", "{x}.shape[-1]")]
+    rows = [_lib(nf, "arange", r_) for r_ in rows]
+    vr = [_piece(r_, rows, (PB,)) for r_ in (ra, rb)]
+    if None in vr:
+        raise AnalysisError(f"{q}: row indices `{ra.canon()[:60]}` / `{rb.canon()[:60]}` of the two writes (unrecognised form)")
+    ok = all(vr)
+    ck.ob("R6-two-hot-weights", q, "one-row-per-sample", ok, f"rows {ra.canon()} / {rb.canon()}", "" if ok else "each sample writes into its own row", loc(mi, na.ast))
+    # weights: with D = bins[up] - bins[lo] the documented upper weight is (x - bins[lo]) / D; comparisons are made after multiplying by D
+    e2 = {**env, "LO": ca, "UP": cb}
+    lo_edge, up_edge = (nf.poly(parse_expr(f"{PB}[{i}]"), Scope(None, mi, e2, q), None) for i in ("LO", "UP"))
+    D = up_edge - lo_edge
+    want_w = (X - lo_edge) * D.inv()
+
+    def times_d(p):
+        """p * D with the quotient atoms (D)^-1 / (-D)^-1 cancelled"""
+        sym = Poly.atom("§D")
+        p2 = p.subst({f"({D.canon()})": sym, f"({(-D).canon()})": -sym}) * sym
+        return p2.subst({"§D": D})
+
+    def only_edges(p):
+        """the weight is written with x and the two selected bin edges alone (the index expressions inside the edges are abstracted)"""
+        txt = p.canon().replace(up_edge.canon(), "UPPER").replace(lo_edge.canon(), "LOWER")
+        return not _opaque(p) and set(re.findall(r"[A-Za-z_][A-Za-z_0-9]*", txt)) <= {PX, "UPPER", "LOWER"}
+    tot = va + vb
+    ok = tot == _c(1) or times_d(tot) == D
+    if not ok and not only_edges(tot):
+        raise AnalysisError(f"{q}: sum of the two written weights `{tot.canon()[:100]}` (unrecognised form)")
+    ck.ob("R6-two-hot-weights", q, "weights-sum-to-one", ok, f"w_lo + w_up = {tot.canon()[:80]}", "" if ok else "the two written weights must sum to one", loc(mi, na.ast))
+    ok = vb == want_w or times_d(vb) == X - lo_edge
+    if not ok and not only_edges(vb):
+        raise AnalysisError(f"{q}: upper weight `{vb.canon()[:100]}` is not written with x and the two bin edges (unrecognised form)")
+    ck.ob("R6-two-hot-weights", q, "interpolation-weight", ok, f"w = {vb.canon()[:120]}", "" if ok else "w must be (x - lower edge) / (upper edge - lower edge): then (1-w)*lower + w*upper decodes to x", where2)
     ck.note("two_hot_encoding: the lower-edge search `argmin(diff - 1e8*(sign(diff)-1))` over float differences is not decided (DESIGN: not decided)")
 
-    # ---- R3 avg-l1 ---------------------------------------------------------------------------------------------------
+
+# ---- R3 avg-l1 ---------------------------------------------------------------------------------------------------
+def _r3_avg_l1(ck, repo, nf):
     q = "rl_blox.blox.function_approximator.norm.avg_l1_norm"
     fn = repo.func(q)
-    env = _env(fn)
-    got = nf.return_poly(q, env)
-    want = nf.poly(parse_expr("x / jnp.maximum(jnp.mean(jnp.abs(x), axis=-1, keepdims=True), eps)"), Scope(None, fn._module, env, q), None)
-    ck.ob("R3-avg-l1", q, "formula", got == want, f"{got.canon()}", "" if got == want else f"must be x / max(mean|x| (last axis, keepdims), eps)", loc(fn._module, fn))
-    dflt = {a.arg: ast.literal_eval(d) for a, d in zip(fn.args.args[-len(fn.args.defaults):], fn.args.defaults)}
-    ok = 0 < dflt.get("eps", 0) <= 1e-6
-    ck.ob("R3-avg-l1", q, "eps-default", ok, f"eps = {dflt.get('eps')}", "" if ok else "a small positive eps keeps the result finite for near-zero input", loc(fn._module, fn))
+    env = _env(repo, nf, fn)
+    PX, PEPS = _roles(fn, q, 2)        # x, eps: by position (positional or keyword-only)
+    X, EPS = env[PX], env[PEPS]
+    got = _ret(nf, q, env)
+    absx = _lib(nf, "abs", X)
+    wants = [X * _lib(nf, "maximum", _lib(nf, "mean", absx, axis=_c(-1), keepdims=_c(1)), EPS).inv()]
 
-    # ---- R4 schedule -----------------------------------------------------------------------------------------------------
+    def pieces(g):
+        if len(g.terms) != 1:
+            return None
+        (mono, c), = g.terms.items()
+        den = [a for a, k_ in mono if k_ == -1]
+        if c != 1 or len(mono) != 2 or len(den) != 1 or (PX, 1) not in mono:
+            return None
+        m = nf.meta.get(den[0], {})
+        if m.get("fn", "").split(".")[-1] != "maximum" or len(m.get("args", [])) != 2 or m.get("kws") or EPS not in m["args"]:
+            return None
+        scale = [a for a in m["args"] if a != EPS]
+        if len(scale) != 1:
+            return None
+        r = _read_reduction(nf, scale[0])
+        if r is None:
+            ms = nf.meta.get(scale[0].single_atom() or "", {})
+            if ms.get("fn") == "pow" and len(ms.get("args", [])) == 2 and ms["args"][1] == _c(Fraction(1, 2)) and _read_reduction(nf, ms["args"][0]) is not None:
+                return {"scale (root of a mean of squares: an L2 / RMS scale, not the mean absolute value)": False}
+            return {"scale": None}
+        c2, red, inn, axis, keep = r
+        return {"factor": c2 == 1, "reduction (mean)": red == "mean", "axis": _last_axis(axis, None), "keepdims": _flag(keep, (1,), (None, 0)), "averaged quantity |x|": _piece(inn, [absx])}
+    _decide(ck, "R3-avg-l1", q, "formula", got, wants, pieces, "must be x / max(mean|x| (last axis, keepdims), eps)", loc(fn._module, fn))
+
+
+def _r3_eps_default(ck, repo, nf):
+    q = "rl_blox.blox.function_approximator.norm.avg_l1_norm"
+    fn = repo.func(q)
+    PX, PEPS = _roles(fn, q, 2)
+    a = fn.args
+    pos = a.posonlyargs + a.args
+    dflt = dict(zip([x.arg for x in pos[len(pos) - len(a.defaults):]], a.defaults))
+    dflt.update({x.arg: d_ for x, d_ in zip(a.kwonlyargs, a.kw_defaults) if d_ is not None})
+    if PEPS not in dflt:
+        raise AnalysisError(f"{q}: `{PEPS}` has no default (unrecognised form)")
+    dv = nf.poly(dflt[PEPS], Scope(None, fn._module), None)       # literal or module-level constant
+    if not dv.is_const():
+        raise AnalysisError(f"{q}: default of `{PEPS}` is `{dv.canon()[:60]}`, not a constant (unrecognised form)")
+    ok = 0 < dv.const_value() <= Fraction(1, 10 ** 6)
+    ck.ob("R3-avg-l1", q, "eps-default", ok, f"{PEPS} = {float(dv.const_value())}", "" if ok else "a small positive eps keeps the result finite for near-zero input", loc(fn._module, fn))
+
+
+# ---- R4 schedule -----------------------------------------------------------------------------------------------------
+def _top_level_split(txt: str, sep: str):
+    parts, depth, cur = [], 0, ""
+    for ch in txt:
+        depth += ch in "([{"
+        depth -= ch in ")]}"
+        if ch == sep and depth == 0:
+            parts.append(cur)
+            cur = ""
+        else:
+            cur += ch
+    return parts + [cur]
+
+
+def _r4_schedule(ck, repo, nf):
     q = "rl_blox.blox.schedules.linear_schedule"
     fn = repo.func(q)
     mi = fn._module
-    env = _env(fn)
-    gotp = nf.return_poly(q, env)
-    TT, ST, EN, FR = (env[x] for x in ("total_timesteps", "start", "end", "fraction"))
-    n_want = nf.poly(parse_expr("int(total_timesteps * fraction)"), Scope(None, mi, env, q), None)
-    facts = {"lengths": set(), "counts": set()}
+    env = _env(repo, nf, fn)
+    gotp = _ret(nf, q, env)
+    PT, PS, PEN, PF = _roles(fn, q, 4)       # total_timesteps, start, end, fraction: by position
+    TT, ST, EN, FR = (env[x] for x in (PT, PS, PEN, PF))
+    n_want = nf.poly(parse_expr(f"int({PT} * {PF})"), Scope(None, mi, env, q), None)
+    facts = {"lengths": [], "counts": []}
 
     def mk(fn_, a, b):
         return nf._mkcall(fn_, [a, b], {})
@@ -153,21 +476,23 @@ def run(ck, repo: Repo, tier: str):
         args = m.get("args", [])
         if "at" in m and m["at"]["op"] == "set" and len(args) == 1:
             idx = m["at"]["index"]
-            if not idx.startswith(":") or ":" in idx[1:]:
-                raise Unknown(a)
-            facts["counts"].add(idx[1:])
+            bounds = _top_level_split(idx, ":")
+            if len(_top_level_split(idx, ",")) != 1 or len(bounds) != 2 or bounds[0].strip() not in ("", "0") or not bounds[1].strip():
+                raise Unknown(a)         # only a prefix slice [:n] is read
+            facts["counts"].append(bounds[1].strip())
             return elem(m["at"]["base"], kind) if kind == "tail" else elem(args[0], kind)
-        if fn_ in ("ones", "ones_like") and args:
-            facts["lengths"].add(args[0].canon())
-            return Poly.const(1)
-        if fn_ in ("zeros", "zeros_like") and args:
-            facts["lengths"].add(args[0].canon())
-            return Poly.const(0)
-        if fn_ == "full" and len(args) >= 2:
-            facts["lengths"].add(args[0].canon())
-            return args[1]
-        if fn_ == "linspace" and len(args) >= 3 and kind in ("first", "last") and m.get("kws", {}).get("endpoint") is None:
-            facts["counts"].add(args[2].canon())
+        kws = m.get("kws", {})
+        shape = args[0] if args else kws.get("shape")          # the shape / fill value may be passed by keyword
+        if fn_ in ("ones", "ones_like", "zeros", "zeros_like") and shape is not None:
+            facts["lengths"].append(shape)
+            return Poly.const(1 if fn_.startswith("ones") else 0)
+        fill = args[1] if len(args) >= 2 else kws.get("fill_value")
+        if fn_ == "full" and shape is not None and fill is not None:
+            facts["lengths"].append(shape)
+            return fill
+        ep = m.get("kws", {}).get("endpoint")
+        if fn_ == "linspace" and len(args) >= 3 and kind in ("first", "last") and (ep is None or (ep.is_const() and ep.const_value() == 1)):
+            facts["counts"].append(args[2].canon())
             return args[0] if kind == "first" else args[1]
         if fn_ == "clip" and len(args) == 3 and not m.get("kws"):
             return mk("minimum", mk("maximum", elem(args[0], kind), elem(args[1], kind)), elem(args[2], kind))
@@ -185,30 +510,68 @@ def run(ck, repo: Repo, tier: str):
                 if model.resolve(w, val) == model.resolve(w, want):
                     okk.add(kind)
                     continue
-                if not (val.atoms() <= {"start", "end"}):
+                if not (val.atoms() <= {PS, PEN}):
                     raise Unknown(val.canon())
+                # a polynomial in start / end alone that is not the documented element: a different schedule
                 viol.setdefault(kind, (f"element ({kind}) = {val.canon()} in the world [{model.describe(w)}]", why))
     except Unknown as u:
         raise AnalysisError(f"{q}: element-wise reading of `{gotp.canon()[:100]}` stops at `{str(u)[:60]}` (unrecognised form)")
     for kind in ("tail", "first", "last"):
         v = viol.get(kind)
         ck.ob("R4-schedule", q, f"element:{kind}", v is None, f"return {gotp.canon()[:120]}" if v is None else v[0], "" if v is None else v[1], loc(mi, fn))
-    okl = facts["lengths"] == {TT.canon()}
-    ck.ob("R4-schedule", q, "length", okl, f"array length(s) {sorted(facts['lengths'])}", "" if okl else "the schedule must have total_timesteps entries", loc(mi, fn))
-    okc = facts["counts"] == {n_want.canon()}
-    ck.ob("R4-schedule", q, "transition-steps", okc, f"transition count(s) {sorted(facts['counts'])}", "" if okc else "the transition spans exactly int(total_timesteps * fraction) steps (slice and linspace count agree)", loc(mi, fn))
+    # array length(s): total_timesteps (a scalar or a one-element shape); another expression in total_timesteps alone is a different length
+    lens = facts["lengths"]
+    if not lens:
+        raise AnalysisError(f"{q}: no array constructor with a length read in `{gotp.canon()[:100]}` (unrecognised form)")
+    okl = all(x == TT or (x.elems is not None and len(x.elems) == 1 and x.elems[0] == TT) for x in lens)
+    if not okl and any(_opaque(x) or not same_ingredients(x, TT) for x in lens):
+        raise AnalysisError(f"{q}: array length(s) {sorted({x.canon()[:60] for x in lens})} (unrecognised form)")
+    ck.ob("R4-schedule", q, "length", okl, f"array length(s) {sorted({x.canon() for x in lens})}", "" if okl else "the schedule must have total_timesteps entries", loc(mi, fn))
+    cnts = sorted(set(facts["counts"]))
+    if not cnts:
+        raise AnalysisError(f"{q}: no transition (prefix slice / linspace count) read in `{gotp.canon()[:100]}` (unrecognised form)")
+    okc = cnts == [n_want.canon()]
+    allowed = set(re.findall(r"[A-Za-z_][A-Za-z_0-9]*", n_want.canon())) | {"int"}
+    if not okc and any("φ(" in t or "⟦" in t or _TMP.search(t) or not set(re.findall(r"[A-Za-z_][A-Za-z_0-9]*", t)) <= allowed for t in cnts):
+        raise AnalysisError(f"{q}: transition count(s) {[t[:60] for t in cnts]} (unrecognised form)")
+    ck.ob("R4-schedule", q, "transition-steps", okc, f"transition count(s) {cnts}", "" if okc else "the transition spans exactly int(total_timesteps * fraction) steps (slice and linspace count agree)", loc(mi, fn))
 
-    # ---- R5 masked loss ------------------------------------------------------------------------------------------------------
+
+# ---- R5 masked loss ------------------------------------------------------------------------------------------------------
+def _r5_masked(ck, repo, nf):
     q = "rl_blox.blox.losses.masked_mse_loss"
     fn = repo.func(q)
     nf3 = NF(repo)
     nf3.expand_squares = False
-    env = _env(fn)
-    got = nf3.return_poly(q, env)
-    want = nf3.poly(parse_expr("jnp.mean(optax.squared_error(predictions, targets) * mask[:, jnp.newaxis])"), Scope(None, fn._module, env, q), None)
-    ck.ob("R5-masked-loss", q, "formula", got == want, f"{got.canon()}", "" if got == want else "must be mean(squared_error(P, T) * mask[:, None])", loc(fn._module, fn))
+    env = _env(repo, nf, fn)
+    PP, PTG, PM = _roles(fn, q, 3)     # predictions, targets, mask: by position
+    PR, TG, M = env[PP], env[PTG], env[PM]
+    got = _ret(nf3, q, env)
+    sq = nf3.square(PR - TG)
+    # the (n_samples,) mask as a column (n_samples, 1) against (n_samples, n_features) errors
+    cols = [_sub(M, i) for i in (":, jax.numpy.newaxis", ":, None", ":, numpy.newaxis", "Ellipsis, None", "Ellipsis, jax.numpy.newaxis", "Ellipsis, numpy.newaxis")]
+    cols += [_lib(nf3, "expand_dims", M, _c(a_)) for a_ in (1, -1)] + [_lib(nf3, "expand_dims", M, axis=_c(a_)) for a_ in (1, -1)] + [_lib(nf3, "reshape", M, _c(-1), _c(1))]
+    inner = [sq * c_ for c_ in cols]
+    wants = [_lib(nf3, "mean", inner[0])]
+
+    def pieces(g):
+        r = _read_reduction(nf3, g)
+        if r is None:
+            return None
+        c, red, inn, axis, keep = r
+        return {"factor": c == 1, "reduction (mean)": red == "mean", "axis (none: over all entries)": True if axis is None else False if axis.is_const() else None, "keepdims": _flag(keep, (None, 0), ()), "averaged quantity": _piece(inn, inner)}
+    _decide(ck, "R5-masked-loss", q, "formula", got, wants, pieces, "must be mean(squared_error(P, T) * mask[:, None])", loc(fn._module, fn))
+
+
+def _r5_broadcast(ck, repo, nf):
+    q = "rl_blox.blox.losses.masked_mse_loss"
+    fn = repo.func(q)
+    PP, PTG, PM = _roles(fn, q, 3)
+    # shapes: unknowns never alarm, an alarm is a definite misalignment; an unknown result shape is not evidence
     se = ShapeEngine(repo)
-    r = se.analyse(fn, fn._module, q, {"predictions": ("B", "F"), "targets": ("B", "F"), "mask": ("B",)})
+    r = se.analyse(fn, fn._module, q, {PP: ("B", "F"), PTG: ("B", "F"), PM: ("B",)})
+    if r is None and not se.alarms:
+        raise AnalysisError(f"{q}: result shape under the documented shapes (B,F),(B,F),(B,) not inferred (unrecognised form)")
     ok = not se.alarms and r == ()
     ck.ob("R5-masked-loss", q, "per-sample-broadcast", ok, f"(B,F),(B,F),(B,) -> {r}; alarms {[(a[2]) for a in se.alarms]}", "" if ok else "; ".join(a[3] for a in se.alarms) or "result is not a scalar", loc(fn._module, fn))
 
@@ -235,6 +598,23 @@ MUTANTS = [
     {"id": "c18-schedule-reversed", "file": _S, "rule": "R4", "find": "        jnp.linspace(start, end, transition_steps)", "replace": "        jnp.linspace(end, start, transition_steps)"},
     {"id": "c18-schedule-length", "file": _S, "rule": "R4", "find": "    schedule = jnp.ones(total_timesteps) * end", "replace": "    schedule = jnp.ones(total_timesteps + 1) * end"},
     {"id": "c18-masked-mask-sum", "file": _L, "rule": "R5", "find": "    return jnp.mean(\n        optax.squared_error(predictions=predictions, targets=targets)\n        * mask[:, jnp.newaxis]\n    )", "replace": "    return jnp.mean(\n        optax.squared_error(predictions=predictions, targets=targets)\n        + mask[:, jnp.newaxis]\n    )"},
+    # violation paths of the piece-wise readings
+    {"id": "c18-ce-logits-axis0", "file": _P, "rule": "R2", "find": "jax.nn.log_softmax(logits, axis=-1)", "replace": "jax.nn.log_softmax(logits, axis=0)"},
+    {"id": "c18-ce-sum-all", "file": _P, "rule": "R2", "find": "    return -jnp.sum(target * log_pred, axis=-1)", "replace": "    return -jnp.sum(target * log_pred)"},
+    {"id": "c18-decoding-axis0", "file": _P, "rule": "R2", "find": "    return jnp.sum(two_hot_encoded * bins, axis=-1)", "replace": "    return jnp.sum(two_hot_encoded * bins, 0)"},
+    {"id": "c18-twohot-independent-searches", "file": _P, "rule": "R6", "find": "    ind_lo = jnp.argmin(diff, 1, keepdims=False)\n    ind_up = jnp.clip(ind_lo + 1, 0, bins.shape[0] - 1)",
+     "replace": "    ind_lo = jnp.searchsorted(bins, x, side=\"right\") - 1\n    ind_up = jnp.clip(jnp.searchsorted(bins, x, side=\"left\"), 0, bins.shape[0] - 1)"},
+    {"id": "c18-twohot-same-column", "file": _P, "rule": "R6", "find": "    ind_up = jnp.clip(ind_lo + 1, 0, bins.shape[0] - 1)", "replace": "    ind_up = jnp.clip(ind_lo, 0, bins.shape[0] - 1)"},
+    {"id": "c18-twohot-rows-of-bins", "file": _P, "rule": "R6", "find": "two_hot.at[jnp.arange(x.shape[0]), ind_up]", "replace": "two_hot.at[jnp.arange(bins.shape[0]), ind_up]"},
+    {"id": "c18-twohot-weights-sum", "file": _P, "rule": "R6", "find": "set(1.0 - weight)", "replace": "set(1.0 + weight)"},
+    {"id": "c18-norm-no-keepdims", "file": _N, "rule": "R3", "find": "jnp.mean(jnp.abs(x), axis=-1, keepdims=True)", "replace": "jnp.mean(jnp.abs(x), axis=-1)"},
+    {"id": "c18-norm-no-abs", "file": _N, "rule": "R3", "find": "jnp.mean(jnp.abs(x), axis=-1, keepdims=True)", "replace": "jnp.mean(x, axis=-1, keepdims=True)"},
+    {"id": "c18-norm-eps-zero", "file": _N, "rule": "R3", "find": "eps: float = 1e-8", "replace": "eps: float = 0.0"},
+    {"id": "c18-norm-plus-eps", "file": _N, "rule": "R3", "find": "jnp.maximum(jnp.mean(jnp.abs(x), axis=-1, keepdims=True), eps)", "replace": "(jnp.mean(jnp.abs(x), axis=-1, keepdims=True) + eps)"},
+    {"id": "c18-masked-row-mask", "file": _L, "rule": "R5", "find": "        * mask[:, jnp.newaxis]", "replace": "        * mask[jnp.newaxis, :]"},
+    {"id": "c18-masked-sum-reduction", "file": _L, "rule": "R5", "find": "    return jnp.mean(\n        optax.squared_error", "replace": "    return jnp.sum(\n        optax.squared_error"},
+    {"id": "c18-schedule-one-more-step", "file": _S, "rule": "R4", "find": "    transition_steps = int(\n        total_timesteps * fraction\n    )", "replace": "    transition_steps = int(total_timesteps * fraction) + 1"},
+    {"id": "c18-schedule-renamed-reversed", "file": _S, "rule": "R4", "edits": [("    start: float = 1.0,\n    end: float = 0.1,\n", "    initial: float = 1.0,\n    final: float = 0.1,\n"), ("    schedule = jnp.ones(total_timesteps) * end", "    schedule = jnp.ones(total_timesteps) * final"), ("        jnp.linspace(start, end, transition_steps)", "        jnp.linspace(final, initial, transition_steps)")]},
 ]
 BENIGN = [
     {"id": "c18-b-schedule-full", "file": _S, "find": "    schedule = jnp.ones(total_timesteps) * end", "replace": "    schedule = jnp.full(total_timesteps, end)"},
@@ -244,4 +624,26 @@ BENIGN = [
     {"id": "c18-b-huber-rewrite", "file": _L, "find": "    return 0.5 * quadratic**2 + delta * linear", "replace": "    return delta * linear + quadratic * quadratic / 2"},
     {"id": "c18-b-ce-neg-inside", "file": _P, "find": "    return -jnp.sum(target * log_pred, axis=-1)", "replace": "    return jnp.sum(-log_pred * target, axis=-1)"},
     {"id": "c18-b-norm-local", "file": _N, "find": "    return x / jnp.maximum(jnp.mean(jnp.abs(x), axis=-1, keepdims=True), eps)", "replace": "    scale = jnp.maximum(jnp.mean(jnp.abs(x), axis=-1, keepdims=True), eps)\n    return x / scale"},
+    # names are free (roles by position), keyword / positional / default spellings of the same call, equivalent index spellings
+    {"id": "c18-b-huber-renamed", "file": _L, "edits": [("def huber_loss(abs_errors: jnp.ndarray, delta: float)", "def huber_loss(abs_err: jnp.ndarray, threshold: float)"),
+        ("    quadratic = jnp.minimum(abs_errors, delta)\n    # Same as max(abs_x - delta, 0) but avoids potentially doubling gradient.\n    linear = abs_errors - quadratic\n    return 0.5 * quadratic**2 + delta * linear", "    inside = jnp.minimum(abs_err, threshold)\n    outside = abs_err - inside\n    return 0.5 * inside**2 + threshold * outside")]},
+    {"id": "c18-b-ce-renamed-default-axis", "file": _P, "edits": [("def two_hot_cross_entropy_loss(\n    bins: jnp.ndarray, logits: jnp.ndarray, target: jnp.ndarray\n)", "def two_hot_cross_entropy_loss(\n    bin_edges: jnp.ndarray, pred_logits: jnp.ndarray, y: jnp.ndarray\n)"),
+        ("    log_pred = jax.nn.log_softmax(logits, axis=-1)\n    target = two_hot_encoding(bins, target)\n    return -jnp.sum(target * log_pred, axis=-1)", "    log_pred = jax.nn.log_softmax(pred_logits)\n    encoded = two_hot_encoding(x=y, bins=bin_edges)\n    return -(encoded * log_pred).sum(-1)")]},
+    {"id": "c18-b-ce-axis-one", "file": _P, "find": "    return -jnp.sum(target * log_pred, axis=-1)", "replace": "    return jnp.sum(-log_pred * target, 1)"},
+    {"id": "c18-b-decoding-matmul", "file": _P, "find": "    return jnp.sum(two_hot_encoded * bins, axis=-1)", "replace": "    return two_hot_encoded @ bins"},
+    {"id": "c18-b-decoding-renamed-broadcast", "file": _P, "edits": [("def two_hot_decoding(\n    bins: jnp.ndarray, two_hot_encoded: jnp.ndarray\n)", "def two_hot_decoding(\n    bin_edges: jnp.ndarray, encoded: jnp.ndarray\n)"), ("    return jnp.sum(two_hot_encoded * bins, axis=-1)", "    return (encoded * bin_edges[None, :]).sum(axis=1)")]},
+    {"id": "c18-b-norm-kwonly-constant", "file": _N, "find": "def avg_l1_norm(x: jnp.ndarray, eps: float = 1e-8)", "replace": "_EPS = 1e-8\n\n\ndef avg_l1_norm(x: jnp.ndarray, *, eps: float = _EPS)"},
+    {"id": "c18-b-norm-renamed", "file": _N, "edits": [("def avg_l1_norm(x: jnp.ndarray, eps: float = 1e-8)", "def avg_l1_norm(v: jnp.ndarray, epsilon: float = 1e-8)"), ("    return x / jnp.maximum(jnp.mean(jnp.abs(x), axis=-1, keepdims=True), eps)", "    return v / jnp.maximum(epsilon, jnp.abs(v).mean(-1, keepdims=True))")]},
+    {"id": "c18-b-masked-renamed-none", "file": _L, "edits": [("def masked_mse_loss(\n    predictions: jnp.ndarray, targets: jnp.ndarray, mask: jnp.ndarray\n)", "def masked_mse_loss(\n    pred: jnp.ndarray, tgt: jnp.ndarray, valid: jnp.ndarray\n)"),
+        ("    return jnp.mean(\n        optax.squared_error(predictions=predictions, targets=targets)\n        * mask[:, jnp.newaxis]\n    )", "    weights = valid[:, None]\n    return (weights * jnp.square(tgt - pred)).mean()")]},
+    {"id": "c18-b-masked-expand-dims", "file": _L, "find": "        * mask[:, jnp.newaxis]", "replace": "        * jnp.expand_dims(mask, axis=-1)"},
+    {"id": "c18-b-twohot-rows-minimum-chained", "file": _P, "edits": [("    ind_up = jnp.clip(ind_lo + 1, 0, bins.shape[0] - 1)", "    ind_up = jnp.minimum(ind_lo + 1, len(bins) - 1)"),
+        ("    two_hot = jnp.zeros((x.shape[0], bins.shape[0]))\n    two_hot = two_hot.at[jnp.arange(x.shape[0]), ind_lo].set(1.0 - weight)\n    two_hot = two_hot.at[jnp.arange(x.shape[0]), ind_up].set(weight)\n    return two_hot\n", "    rows = jnp.arange(len(x))\n    lo_pos = (rows, ind_lo)\n    return jnp.zeros((len(x), len(bins))).at[lo_pos].set(1.0 - weight).at[rows, ind_up].set(weight)\n")]},
+    {"id": "c18-b-twohot-renamed-weights", "file": _P, "edits": [("def two_hot_encoding(bins: jnp.ndarray, x: jnp.ndarray)", "def two_hot_encoding(edges: jnp.ndarray, values: jnp.ndarray)"), ("    diff = x[:, jnp.newaxis] - bins[jnp.newaxis]\n", "    diff = values[:, jnp.newaxis] - edges[jnp.newaxis]\n"),
+        ("    ind_up = jnp.clip(ind_lo + 1, 0, bins.shape[0] - 1)\n\n    lower = bins[ind_lo]\n    upper = bins[ind_up]\n    weight = (x - lower) / (upper - lower)\n", "    ind_up = jnp.clip(ind_lo + 1, min=0, max=edges.shape[0] - 1)\n\n    lower = edges[ind_lo]\n    upper = edges[ind_up]\n    width = upper - lower\n    weight = (values - lower) / width\n"),
+        ("    two_hot = jnp.zeros((x.shape[0], bins.shape[0]))\n    two_hot = two_hot.at[jnp.arange(x.shape[0]), ind_lo].set(1.0 - weight)\n    two_hot = two_hot.at[jnp.arange(x.shape[0]), ind_up].set(weight)\n", "    two_hot = jnp.zeros((values.shape[0], edges.shape[0]))\n    two_hot = two_hot.at[jnp.arange(values.shape[0]), ind_lo].set((upper - values) / width)\n    two_hot = two_hot.at[jnp.arange(values.shape[0]), ind_up].set(weight)\n")]},
+    {"id": "c18-b-schedule-renamed", "file": _S, "edits": [("    total_timesteps: int,\n    start: float = 1.0,", "    n_steps: int,\n    start: float = 1.0,"),
+        ("    transition_steps = int(\n        total_timesteps * fraction\n    )  # Number of steps for decay\n    schedule = jnp.ones(total_timesteps) * end  # Default value after decay\n\n    schedule = schedule.at[:transition_steps].set(\n        jnp.linspace(start, end, transition_steps)\n    )\n", "    k = int(fraction * n_steps)\n    schedule = jnp.ones(n_steps) * end\n    schedule = schedule.at[:k].set(jnp.linspace(start, end, num=k))\n")]},
+    {"id": "c18-b-schedule-kwonly-slice", "file": _S, "edits": [("    total_timesteps: int,\n    start: float = 1.0,", "    total_timesteps: int,\n    *,\n    start: float = 1.0,"), ("    schedule = jnp.ones(total_timesteps) * end", "    schedule = jnp.ones((total_timesteps,)) * end"), ("schedule.at[:transition_steps]", "schedule.at[0:transition_steps]"),
+        ("jnp.linspace(start, end, transition_steps)", "jnp.linspace(start, end, transition_steps, endpoint=True)")]},
 ]
